@@ -158,7 +158,9 @@ def prepare(case):
         _f0, _v0, s0 = make_stream(pre["pat"], kind)
         how = pre.get("how", "list")
         if how == "list":
-            tk.tokenize(s0)
+            earlier = tk.tokenize(s0)
+            # what the caller got must stay what it is, whatever the tokenizer is used for next
+            tk._vf_earlier = (earlier, [(list(fr), s, e) for fr, s, e in earlier])
         elif how[0] == "gen":
             g = tk.tokenize(s0, generator=True)
             for _ in range(how[1]):
@@ -236,7 +238,24 @@ def run_case(case):
         toks.extend(g2)
         return frames, toks
     toks = deliver(tk, source, case.get("deliv", "list"))
+    check_earlier(tk, toks)
     return frames, toks
+
+
+def check_earlier(tk, later):
+    """tokens handed out by an earlier list-mode run of this tokenizer are still intact and are not
+    the object handed out now"""
+    saved = getattr(tk, "_vf_earlier", None)
+    if saved is None:
+        return
+    earlier, snapshot = saved
+    now = [(list(fr), s, e) for fr, s, e in earlier]
+    if now != snapshot:
+        raise_violation(
+            f"the token list returned by an earlier run changed after the tokenizer was used again: "
+            f"{[(len(f), s, e) for f, s, e in now]} was {[(len(f), s, e) for f, s, e in snapshot]}")
+    if earlier is later and (earlier or later):
+        raise_violation("a later run returned the very list object an earlier run had returned")
 
 
 def spans(tokens):
